@@ -425,6 +425,28 @@ def in_thread(fn, *a):
 # child interpreters started with PYTHONOPTIMIZE=1 / 2 (assert statements, then docstrings, compiled away)
 # --------------------------------------------------------------------------------------------------
 
+def host_application_settings():
+    """
+    what an application may have configured before it (lazily) imports and uses the library: the logging system at DEBUG
+    (records go to a null stream), and another decimal context being current WHILE THE PACKAGE IS IMPORTED (60 digits,
+    ROUND_05UP, no traps - inside the statement's 'any rounding mode, at least the default precision'); the default context
+    is current again when the cases run.  A library that computes differently when somebody listens to its log, or that
+    keeps the context it saw at import, shows only then.
+    """
+    import decimal
+    import logging
+    logging.basicConfig(level=logging.DEBUG, stream=open(os.devnull, "w"))
+    logging.getLogger().setLevel(logging.DEBUG)
+    logging.captureWarnings(False)
+    with decimal.localcontext(decimal.Context(prec=60, rounding=decimal.ROUND_05UP, traps=[], capitals=0)):
+        import_target()
+        for name in ("cvss.parser", "cvss.cvss_calculator", "cvss.interactive"):
+            try:
+                importlib.import_module(name)
+            except Exception:  # noqa
+                pass
+
+
 def reload_target():
     """
     every module of the package executed again, twice in a row, in dependency order (found from the import statements):
@@ -515,7 +537,8 @@ def interpreter_modes(part, tier):
     for it in items:
         if isinstance(it[1], dict):
             it[1] = dict((k, x) for k, x in it[1].items() if not str(k).startswith("_"))
-    modes = [({"PYTHONOPTIMIZE": "1"}, "python -O"), ({"VERIF_RELOAD": "1"}, "modules reloaded"), ({"VERIF_PYFLAGS": "-bb"}, "python -bb")]
+    modes = [({"PYTHONOPTIMIZE": "1"}, "python -O"), ({"VERIF_RELOAD": "1"}, "modules reloaded"), ({"VERIF_PYFLAGS": "-bb"}, "python -bb"),
+             ({"VERIF_HOST": "1"}, "host settings: logging at DEBUG, imported under another decimal context")]
     if tier != "quick":
         modes.append(({"PYTHONOPTIMIZE": "2"}, "python -OO"))
     d = tempfile.mkdtemp(prefix="vfmodes")
